@@ -133,10 +133,18 @@ impl LoopSpec {
             } else {
                 format!("(c04-p{} {})", i, params.join(" "))
             };
+            // every activation adds its own index and everything it was passed: a tail call that
+            // hands over the wrong arguments (or disturbs its caller's) changes the value
+            let mut terms: Vec<String> = params.clone();
+            if rest {
+                terms.push("(length c04-r)".into());
+                terms.push("(apply + c04-r)".into());
+            }
             let src = format!(
-                "(define {} (set! c04-n (- c04-n 1)) (set! c04-acc (+ c04-acc {})) (if (<= c04-n 0) c04-acc {}))",
+                "(define {} (set! c04-n (- c04-n 1)) (set! c04-acc (+ c04-acc {} {})) (if (<= c04-n 0) c04-acc {}))",
                 head,
                 i + 1,
+                terms.join(" "),
                 expr
             );
             forms.push(read(&src).unwrap_or_else(|e| panic!("c04 template does not parse: {} in {}", e, src)));
@@ -148,11 +156,17 @@ impl LoopSpec {
         let m = self.procs.len() as u64;
         let mut acc = 0u64;
         // iteration j (0-based) runs procedure j mod m and adds (j mod m)+1; stops when n reaches 0
+        // ... plus the arguments it was passed: 1..arity, and (7 8) as rest (length 2, sum 15)
+        let weight = |i: u64| -> u64 {
+            let (arity, rest) = self.procs[i as usize];
+            let a = arity as u64;
+            (i + 1) + a * (a + 1) / 2 + if rest { 17 } else { 0 }
+        };
         let full = n / m;
         let rem = n % m;
-        let per_cycle: u64 = (1..=m).sum();
+        let per_cycle: u64 = (0..m).map(weight).sum();
         acc += full * per_cycle;
-        acc += (1..=rem).sum::<u64>();
+        acc += (0..rem).map(weight).sum::<u64>();
         acc
     }
 
@@ -287,7 +301,7 @@ impl Prop for C04 {
         "C04"
     }
     fn rule(&self) -> &'static str {
-        "grid: every single tail context (32: body-last, if arms, cond clause/else/=>, case clause/else/=>, and/or last operand, when, unless, let, let*, letrec, named let, begin, lambda literal, call/cc receiver, apply, eval, eval of a begin / if / let / eval whose tail position holds the call, ...) x caller arity 0..4 x callee arity 0..4 x rest flags, self recursion and 2-procedure mutual recursion, at n=10 and n=10^3 (a sample also at 10^5); random compositions of depth 1-3 over 1-3 procedures. Stack high-water (hook) at 10^3/10^5 must be within 16 slots of n=10; value = closed form = non-tail twin. Non-trivial: a context other than plain if/body-last; distinct by loop id."
+        "grid: every single tail context (32: body-last, if arms, cond clause/else/=>, case clause/else/=>, and/or last operand, when, unless, let, let*, letrec, named let, begin, lambda literal, call/cc receiver, apply, eval, eval of a begin / if / let / eval whose tail position holds the call, ...) x caller arity 0..4 x callee arity 0..4 x rest flags, self recursion and 2-procedure mutual recursion, at n=10 and n=10^3 (a sample also at 10^5); random compositions of depth 1-3 over 1-3 procedures. Stack high-water (hook) at 10^3/10^5 must be within 16 slots of n=10; value (each activation adds its index and all the arguments it received) = closed form = non-tail twin. Non-trivial: a context other than plain if/body-last; distinct by loop id."
     }
     fn assumptions(&self) -> Vec<&'static str> {
         vec![
